@@ -72,12 +72,14 @@ const (
 	gSum           = 2
 	gSumDistinct   = 3
 	gAvg           = 4
+	gAvgDistinct   = 5
 	gMin           = 6
 	gMax           = 7
 )
 
 // AggSet returns the aggregate list of the harness parameter AGGSET:
-// 0: count, sum, min   1: count, sum, min, max   2: count_distinct, sum_distinct, avg, max
+// 0: count, sum, min   1: count, sum, min, max   2: count_distinct, sum_distinct, max
+// 3: count, avg, avg_distinct
 func AggSet(set int) []int {
 	switch set {
 	case 0:
@@ -85,7 +87,9 @@ func AggSet(set int) []int {
 	case 1:
 		return []int{gCount, gSum, gMin, gMax}
 	case 2:
-		return []int{gCountDistinct, gSumDistinct, gAvg, gMax}
+		return []int{gCountDistinct, gSumDistinct, gMax}
+	case 3:
+		return []int{gCount, gAvg, gAvgDistinct}
 	}
 	panic("vagg: bad AGGSET")
 }
@@ -124,13 +128,8 @@ func refAgg(kind int, items []refItem) octosql.Value {
 	case gSum:
 		return nullableInt(nonEmpty, sum)
 	case gAvg:
-		// sum / cnt with Go truncation; cnt ranges over 1..n: case split keeps divisors constant
-		var avg int64
-		for c := int64(1); c <= int64(n); c++ {
-			avg = zzverif.IteInt64(cnt == c, sum/c, avg)
-		}
-		return nullableInt(nonEmpty, avg)
-	case gCountDistinct, gSumDistinct:
+		return nullableInt(nonEmpty, divSmall(sum, cnt, n))
+	case gCountDistinct, gSumDistinct, gAvgDistinct:
 		var dc, ds int64
 		for i := range items {
 			first := use[i] // no earlier used item carries the same value
@@ -140,10 +139,13 @@ func refAgg(kind int, items []refItem) octosql.Value {
 			dc += zzverif.IteInt64(first, 1, 0)
 			ds += zzverif.IteInt64(first, items[i].v.Int, 0)
 		}
-		if kind == gCountDistinct {
+		switch kind {
+		case gCountDistinct:
 			return nullableInt(nonEmpty, dc)
+		case gSumDistinct:
+			return nullableInt(nonEmpty, ds)
 		}
-		return nullableInt(nonEmpty, ds)
+		return nullableInt(nonEmpty, divSmall(ds, dc, n))
 	case gMin, gMax:
 		var best int64
 		have := false
@@ -160,6 +162,16 @@ func refAgg(kind int, items []refItem) octosql.Value {
 		return nullableInt(nonEmpty, best)
 	}
 	panic("vagg: no reference for aggregate")
+}
+
+// divSmall is a / b with Go truncation for b in 1..n (0 otherwise): a case split over b keeps every
+// divisor constant.
+func divSmall(a, b int64, n int) int64 {
+	var q int64
+	for c := int64(1); c <= int64(n); c++ {
+		q = zzverif.IteInt64(b == c, a/c, q)
+	}
+	return q
 }
 
 // GroupSpec describes a group-by over source rows: key columns, the aggregate input column and the
